@@ -42,3 +42,30 @@ package keeper
 //@ ensures signal.Power == 0 ==> Store_feeds == remove(old(dropIdx(Store_feeds, signal.ID)), types.SignalTotalPowerStoreKey(signal.ID))
 //@ ensures signal.Power != 0 ==> Store_feeds == store(store(old(dropIdx(Store_feeds, signal.ID)), types.SignalTotalPowerStoreKey(signal.ID), enc(signal)),
 //@                                               types.SignalTotalPowerByPowerIndexKey(signal.ID, signal.Power), bytes(signal.ID))
+
+// ---- C06: the status rule ----------------------------------------------------------------------------
+// With T, A, U the total / AVAILABLE / UNSUPPORTED reporting power: UNKNOWN_SIGNAL_ID iff 2U > T; otherwise
+// NOT_READY when T is below the quorum, fewer than half is AVAILABLE or no power is AVAILABLE at all; otherwise AVAILABLE with the price of
+// one of the AVAILABLE entries. The function is total (block execution must not fail): err == nil.
+//@ func (k Keeper) CalculatePrice
+//@ replay zero-receiver
+//@ requires forall i :: 0 <= i && i < len(validatorPriceInfos) ==> validatorPriceInfos[i].Power >= 0
+//@ requires powerQuorum >= 0
+//@ ensures err == nil
+//@ ensures err == nil ==> result.SignalID == feed.SignalID && result.Timestamp == ctx.BlockTime().Unix()
+//@ ensures err == nil && 2 * types.stPower(validatorPriceInfos, types.SIGNAL_PRICE_STATUS_UNSUPPORTED, 0, len(validatorPriceInfos)) > types.allPower(validatorPriceInfos, 0, len(validatorPriceInfos))
+//@           ==> result.Status == types.PRICE_STATUS_UNKNOWN_SIGNAL_ID && result.Price == 0
+//@ ensures err == nil && !(2 * types.stPower(validatorPriceInfos, types.SIGNAL_PRICE_STATUS_UNSUPPORTED, 0, len(validatorPriceInfos)) > types.allPower(validatorPriceInfos, 0, len(validatorPriceInfos)))
+//@           && (types.allPower(validatorPriceInfos, 0, len(validatorPriceInfos)) < powerQuorum
+//@               || 2 * types.stPower(validatorPriceInfos, types.SIGNAL_PRICE_STATUS_AVAILABLE, 0, len(validatorPriceInfos)) < types.allPower(validatorPriceInfos, 0, len(validatorPriceInfos)))
+//@           ==> result.Status == types.PRICE_STATUS_NOT_READY && result.Price == 0
+//@ ensures err == nil && result.Status == types.PRICE_STATUS_AVAILABLE
+//@           ==> (exists j :: 0 <= j && j < len(validatorPriceInfos) && validatorPriceInfos[j].SignalPriceStatus == types.SIGNAL_PRICE_STATUS_AVAILABLE && result.Price == validatorPriceInfos[j].Price)
+//@ ensures err == nil && result.Status == types.PRICE_STATUS_AVAILABLE
+//@           ==> types.allPower(validatorPriceInfos, 0, len(validatorPriceInfos)) >= powerQuorum
+//@               && 2 * types.stPower(validatorPriceInfos, types.SIGNAL_PRICE_STATUS_AVAILABLE, 0, len(validatorPriceInfos)) >= types.allPower(validatorPriceInfos, 0, len(validatorPriceInfos))
+//@ ensures err == nil && !(2 * types.stPower(validatorPriceInfos, types.SIGNAL_PRICE_STATUS_UNSUPPORTED, 0, len(validatorPriceInfos)) > types.allPower(validatorPriceInfos, 0, len(validatorPriceInfos)))
+//@           && types.allPower(validatorPriceInfos, 0, len(validatorPriceInfos)) >= powerQuorum
+//@           && 2 * types.stPower(validatorPriceInfos, types.SIGNAL_PRICE_STATUS_AVAILABLE, 0, len(validatorPriceInfos)) >= types.allPower(validatorPriceInfos, 0, len(validatorPriceInfos))
+//@           && types.stPower(validatorPriceInfos, types.SIGNAL_PRICE_STATUS_AVAILABLE, 0, len(validatorPriceInfos)) > 0
+//@           ==> result.Status == types.PRICE_STATUS_AVAILABLE
